@@ -518,6 +518,17 @@ class C19(Check):
                     t = kind if kind != "int" else "int:" + rng.choice(["0000000000000000", "ffffffffffffffff", G.hexb(rng, 8)])
                     addr_values.append([net, t, rng.choice(keys).hex(), rng.choice(keys).hex()])
         addr_values.append(["main", "std", A.REPO_KEYS[0].hex(), A.REPO_KEYS[1].hex()])
+        # one field varied at a time, back to back: same keys / other payment id, same payment id / other key, other network, type
+        for rep in range(2 if not thorough else 20):
+            s0, v0, s1, v1 = (rng.choice(keys).hex() for _ in range(4))
+            p0, p1 = G.hexb(rng, 8), G.hexb(rng, 8)
+            n0 = rng.choice(["main", "test", "stage"])
+            n1 = rng.choice([n for n in ("main", "test", "stage") if n != n0])
+            for (net, t, s_, v_) in ((n0, "int:" + p0, s0, v0), (n0, "int:" + p1, s0, v0), (n0, "int:" + p0, s0, v0),
+                                     (n0, "int:" + p0, s1, v0), (n0, "int:" + p0, s0, v1), (n1, "int:" + p0, s0, v0),
+                                     (n0, "std", s0, v0), (n0, "sub", s0, v0), (n0, "int:" + p0, s0, v0),
+                                     (n0, "int:0000000000000000", s0, v0)):
+                addr_values.append([net, t, s_, v_])
         bad_keys = [k for k in A.SPECIAL_KEYS if not A.pk_valid(k)] + [A.random_key(rng, valid=False) for _ in range(3)]
 
         # ---- json + json_rt
